@@ -380,7 +380,22 @@ func getHandler(env *lisp.LEnv, in *lisp.LVal, name string, constraints []*lisp.
 					"Bad input type: an ordinary function is not usable as a constraint (%v). Constraints must be built by the s package (s:int, s:has-key, s:gt, ...) or by libschema.NewValidator.",
 					in)
 			}
-			return in
+			if len(constraints) == 0 {
+				return in
+			}
+			// A validator used as the base type: the constraints that follow
+			// it apply as well, exactly as they do after a type name.
+			base, rest := in, builtinCheckAny(env, constraints)
+			return newValidator(lisp.Formals("input"), func(env *lisp.LEnv, input *lisp.LVal) *lisp.LVal {
+				v := applyConstraint(env, base, input)
+				if v.Type == lisp.LError {
+					return v
+				}
+				if r := applyConstraint(env, rest, input); r.Type == lisp.LError {
+					return r
+				}
+				return v
+			})
 		}
 		res = lisp.ErrorConditionf(BadArgs, "Bad input type: %s is not usable as a constraint (%v)", in.Type.String(), in)
 	}
